@@ -578,7 +578,8 @@ func invertSplit(sp *SplitExp, i CollectionIndex) (bool, Exp, error) {
 		m.Value = make(map[string]Exp, len(v.Value))
 		done := true
 		change := false
-		for k, vv := range v.Value {
+		for _, k := range sortedKeys(v.Value) {
+			vv := v.Value[k]
 			d, e, err := getElement(vv, i, true)
 			if err != nil {
 				errs = append(errs, err)
